@@ -17,10 +17,14 @@ OBLIGATIONS = [
     (P + "matcher_correct", "content without the delimiter followed by the delimiter is emitted exactly; guard: CR not in the boundary key"),
     (P + "matcher_needs_guard_counterexample", "with a CR inside the boundary key the hand-rolled restart misses a delimiter"),
     (P + "multipart_roundtrip", "body built from accepted header blocks and delimiter-free contents, any chunking -> exactly those parts in order"),
+    (P + "encodeHeader_ok", "the header block Spec.encodeHeader writes for a well-formed part (any bytes but CR/LF in names) is accepted as a whole and read back as that part's name/filename/mime"),
+    (P + "multipart_roundtrip_parts", "WFparts ps, fields within the limit, no CR in the boundary key -> run (any chunking of Spec.encode ps) = ready ps: names, file names, MIME types, contents, order"),
     (P + "limits_respected", "declared length over the multipart limit (multipart) / content limit (other) -> 413 before any byte is looked at, whatever the bytes"),
     (P + "refused_not_partial", "a refused request delivers no field and no file"),
     (P + "raw_filter_sees_each_byte_once", "raw content filter: concatenation of the chunks it is given = the first content_length bytes, each once, in order; completes exactly at content_length"),
     (P + "malformed_urlencoded_refused", "a urlencoded POST body within limits with an item without '=' or with an empty name is refused with 400 (D11, fixed)"),
+    (P + "urlencoded_roundtrip", "parse_form_urlencoded applied to k=v&... written by util::urlencode returns exactly the pairs, in order"),
+    (P + "urlencoded_request_roundtrip", "... and the request delivers them as post() under any chunking"),
     (P + "urlencoded_witness", "the D11 witness a=b&c&e=f: parse_form_urlencoded has inserted a=b when it fails"),
 ]
 
@@ -226,7 +230,7 @@ def pct(s, rng=None):
         if (48 <= c <= 57) or (65 <= c <= 90) or (97 <= c <= 122) or c in b"-_.~":
             out.append(c)
         else:
-            out += b"%%%02X" % c
+            out += b"%%%02x" % c
     return bytes(out)
 
 
